@@ -4,6 +4,7 @@ import (
 	"io"
 
 	coreiface "github.com/ipfs/kubo/core/coreiface"
+	"github.com/libp2p/go-libp2p/core/crypto"
 	"go.uber.org/zap"
 
 	"berty.tech/weshnet/v2/pkg/protocoltypes"
@@ -87,7 +88,15 @@ func VerifC20Restore(n, dstHasAccount int) {
 		return
 	}
 	ak2, pk2, err := dst.ExportAccountKeysForBackup()
-	verif_assert(err == nil && verif_bytesEq(ak2, keyBody) && verif_bytesEq(pk2, proofBody), "C20: the restored identity is the one in the archive's key files")
+	verif_assert(err == nil, "C20: the restored keys can be read back")
+	if err == nil {
+		// compared as KEYS, not as bytes: a private key has more than one accepted encoding
+		ka, ea := crypto.UnmarshalPrivateKey(ak2)
+		wa, ewa := crypto.UnmarshalPrivateKey(keyBody)
+		kp, ep := crypto.UnmarshalPrivateKey(pk2)
+		wp, ewp := crypto.UnmarshalPrivateKey(proofBody)
+		verif_assert(ea == nil && ewa == nil && ep == nil && ewp == nil && ka.Equals(wa) && kp.Equals(wp), "C20: the restored identity is the one in the archive's key files")
+	}
 	for i := range entryBodies {
 		verif_assert(verif_bytesEq(entryNames[i], verif_cidNameOf(entryBodies[i])), "C20: an entry whose bytes do not match its identifier is rejected")
 		verif_assert(verif_dagHas(api, entryBodies[i]), "C20: every accepted entry reaches the DAG byte-for-byte")
